@@ -331,10 +331,15 @@ def _anc(n):
     return out
 
 
-def hierarchy_axioms():
+# OSError subclasses only the file-lock code can meet: left out of the class universe of the other tasks (every
+# extra class makes the quantified closure axioms dearer; a class outside the universe is merely unconstrained)
+RARE_OSERRORS = ('PermissionError', 'FileNotFoundError', 'FileExistsError', 'InterruptedError')
+
+
+def hierarchy_axioms(with_rare=False):
     """Ground facts for the known classes + closure axioms for symbolic ones."""
     ax = []
-    names = list(EXC_PARENTS)
+    names = [n for n in EXC_PARENTS if with_rare or n not in RARE_OSERRORS]
     ax.append(z3.Distinct(*[EXC[n].term for n in names]))
     for a in names:
         anc = set(_anc(a))
